@@ -132,3 +132,8 @@ package surveyor
 //@   ensures cast("*socket", result).master.survExpire == 1000000000
 //@
 // ---- end generated default contracts ----
+// ---- generated current-queue contracts (from `govc sites -select`): the select uses the socket's queues as of the last time the lock was held ----
+//@ func (*pipe).sender
+//@   before select#1 assert selwaits(p.sendQ)
+//@
+// ---- end generated current-queue contracts ----
